@@ -202,6 +202,26 @@ func (monC06) TaskEnd(s *Sim, t *Task) {
 			s.Violate("C06", "must-not-pause", "", "%s: Canary-Paused became true without trigger (autoPause enabled=%v)", t.Label(), *ap.Enabled)
 		}
 	}
+	// restart tracking: what C05's noRestartsDuration clause relies on. After the sync the
+	// PodRestarting condition records the latest restart of any container of the evaluated pods.
+	var latest time.Time
+	for _, p := range pods {
+		if lr := latestRestart(p); lr.After(latest) {
+			latest = lr
+		}
+	}
+	if !latest.IsZero() {
+		s.Stats.NonVacuous["C06.restart-tracking"]++
+		rc := ersCond(written, edsv1.ConditionTypePodRestarting)
+		if rc == nil || rc.LastUpdateTime.Time.Before(latest.Truncate(time.Second)) {
+			got := "absent"
+			if rc != nil {
+				got = rc.LastUpdateTime.Time.UTC().Format(time.RFC3339)
+			}
+			s.Violate("C06", "restart-tracking", "", "%s: a container of a canary pod restarted at %s but the PodRestarting condition records %s", t.Label(), latest.UTC().Format(time.RFC3339), got)
+			s.Violate("C05", "restart-tracking", "", "%s: the last canary pod restart (%s) is not recorded (condition says %s): noRestartsDuration would be measured from an older restart", t.Label(), latest.UTC().Format(time.RFC3339), got)
+		}
+	}
 	if (gotPaused || gotFailed) && len(v.PodCreates) > 0 {
 		s.Violate("C06", "create-while-held", "", "%s: result paused=%v failed=%v but %d canary pods were created", t.Label(), gotPaused, gotFailed, len(v.PodCreates))
 	}
